@@ -58,20 +58,30 @@ theorem fact_policy_enum_and_annotations :
     looks at the release-policy annotation (the model's `policyOf`). -/
 theorem fact_pool_annotation_forces_never : Generated.C03.poolAnnotationForcesNever = true := by decide
 
-/-- The branch tables of `unbindDpPod`, `unbindNoneDpPod` and `supportReserveIPPolicy`, condition by condition, are
-    the ones `codeAction` / `supported` transcribe. -/
+set_option maxRecDepth 100000 in
+/-- The decision lists of `unbindDpPod`, `unbindNoneDpPod`, `supportReserveIPPolicy` and `shouldRelease` - taken from the
+    CANONICAL form of the functions (switch = if-chain, else after a returning branch dropped, helpers inlined, locals
+    inlined, names by position; harmless/NORMALISE.md) - are the ones `codeAction` / `supported` transcribe.  The list
+    of `unbindDpPod` also fixes where the pool lock and the count sit: lock, then `ByPrefix`, then the decision. -/
 theorem fact_decision_branch_tables :
     Generated.C03.unbindDpTable =
       [("policy == constant.ReleasePolicyPodDelete", "release"),
-       ("policy == constant.ReleasePolicyNever", "[key != prefixKey -> reserve-prefix] nil"),
-       ("replicas == 0", "release"),
-       ("len(fips) > replicas", "release"),
-       ("else", "[key != prefixKey -> reserve-prefix]")] ∧
+       ("policy == constant.ReleasePolicyNever", "[keyObj.KeyInDB != keyObj.PoolPrefix() -> reserve-prefix] nil"),
+       ("let", "replicas, err := p.getReplicasOfDeployment(keyObj)"),
+       ("err != nil", "[!metaErrs.IsNotFound(err) -> error]"),
+       ("<no-replicas test>", "release"),
+       ("defer", "p.LockDpPool(keyObj.PoolPrefix())()"),
+       ("let", "fips, err := p.ipam.ByPrefix(keyObj.PoolPrefix())"),
+       ("err != nil", "error"),
+       ("<exceeds test>", "release"),
+       ("keyObj.KeyInDB != keyObj.PoolPrefix()", "reserve-prefix"),
+       ("otherwise", "nil")] ∧
     Generated.C03.unbindNoneDpTable =
       [("policy == constant.ReleasePolicyPodDelete || p.supportReserveIPPolicy(keyObj, policy) != nil", "release"),
        ("policy == constant.ReleasePolicyNever", "reserve-own"),
        ("policy == constant.ReleasePolicyImmutable",
-        "[err != nil -> error] [err != nil -> error] [!shouldRelease -> reserve-own] [else -> release]")] ∧
+        "[let appExist, replicas, err := p.checkAppAndReplicas(keyObj)] [err != nil -> error] [let shouldRelease, reason, err := p.shouldRelease(keyObj, appExist, replicas)] [err != nil -> error] [!shouldRelease -> reserve-own] release"),
+       ("otherwise", "nil")] ∧
     Generated.C03.supportReserveTable =
       [("obj.Deployment() || obj.StatefulSet()", "nil"),
        ("let", "_, err := parsePodIndex(obj.PodName)"),
@@ -79,13 +89,18 @@ theorem fact_decision_branch_tables :
        ("policy == constant.ReleasePolicyNever", "nil"),
        ("let", "gvr := p.crdKey.GetGroupVersionResource(obj.AppTypePrefix)"),
        ("gvr == nil", "error"),
-       ("otherwise", "return nil")] := by decide
+       ("otherwise", "nil")] ∧
+    Generated.C03.shouldReleaseTable =
+      [("!parentAppExist", "true"),
+       ("let", "index, err := parsePodIndex(keyObj.KeyInDB)"),
+       ("err != nil", "error"),
+       ("<scaled-down test>", "true"),
+       ("otherwise", "false")] := by decide
 
-/-- `shouldRelease` tests the missing parent app first, then parses the index, then compares; `getStsReplicas`,
-    `checkAppAndReplicas`, `getReplicasOfDeployment` (unknown deployment = 0 replicas) and `getDpReplicas` have the
-    shape `dinOf` / `checkApp` transcribe. -/
+/-- `getStsReplicas`, `checkAppAndReplicas`, `getReplicasOfDeployment` (unknown deployment = 0 replicas) and
+    `getDpReplicas` have the shape `dinOf` / `checkApp` transcribe. -/
 theorem fact_app_lookup_shapes :
-    Generated.C03.shouldReleaseShape = true ∧ Generated.C03.stsReplicasShape = true ∧
+    Generated.C03.stsReplicasShape = true ∧
     Generated.C03.checkAppAndReplicasShape = true ∧ Generated.C03.dpMissingMeansZeroReplicas = true ∧
     Generated.C03.dpReplicasShape = true := by decide
 
@@ -113,7 +128,8 @@ theorem fact_resync_skips_prefix_keys :
     ∀ (u n d : Bool) (p : Nat), Generated.C03.resyncSkipsReserved u n d p = (u && n && !d && p == 2) := by
   refine ⟨by decide, fun u n d p => ?_⟩
   unfold Generated.C03.resyncSkipsReserved
-  rw [gen_policies.2.2]
+  -- whatever the order / nesting of the conjuncts in the source
+  cases u <;> cases n <;> cases d <;> simp [gen_policies.2.2]
 
 /-! ### 1. the decision table -/
 
